@@ -245,7 +245,7 @@ def run_history(rx: str, ops: list) -> dict:  # noqa: C901, PLR0912, PLR0915
                             bag.add(call)
                         elif owner != "non_dynamic":
                             lib_owners.setdefault(info["parent"][1], set()).add(owner)
-                            if owner in ("bw_ff", "bw_analytic", "bw_swave", "non_dynamic_ff") and \
+                            if owner in ("bw_ff", "bw_analytic", "bw_swave", "bw_ffonly", "bw_edw", "non_dynamic_ff") and \
                                     info["l"] is None and not info["particle"].spin.is_integer():
                                 expect_error = "ValueError"
             if error is not None:
@@ -318,7 +318,7 @@ def run_history(rx: str, ops: list) -> dict:  # noqa: C901, PLR0912, PLR0915
             for pname, owners in lib_owners.items():
                 particle = particles[pname]
                 ident = particle.latex or particle.name
-                needs_mass = owners & {"bw", "bw_ff", "bw_analytic", "bw_swave"}
+                needs_mass = owners & {"bw", "bw_ff", "bw_analytic", "bw_swave", "bw_ffonly", "bw_edw"}
                 if needs_mass:
                     for label, want_value in ((f"m_{{{ident}}}", particle.mass), (Rf"\Gamma_{{{ident}}}", particle.width)):
                         if label not in defaults:
@@ -326,7 +326,7 @@ def run_history(rx: str, ops: list) -> dict:  # noqa: C901, PLR0912, PLR0915
                         elif defaults[label] != want_value:
                             mismatches.append({"kind": f"default-value:{rx}:{pname}",
                                                "detail": f"{label}={defaults[label]} but the particle table says {want_value}"})
-                if owners & {"bw_ff", "bw_analytic", "bw_swave", "non_dynamic_ff"}:
+                if owners & {"bw_ff", "bw_analytic", "bw_swave", "bw_ffonly", "bw_edw", "non_dynamic_ff"}:
                     label = f"d_{{{ident}}}"
                     if label in defaults and defaults[label] != 1:
                         mismatches.append({"kind": f"default-value:{rx}:{pname}", "detail": f"{label}={defaults[label]} != 1"})
